@@ -4,6 +4,7 @@ A function under contract is executed from the start once per path.  Every symbo
 Run.decide(); decisions beyond the given prefix take the first feasible side and queue the other.
 Fresh symbols are numbered deterministically, so re-executing a prefix rebuilds identical terms.
 """
+import os
 import time
 import z3
 from . import kinds as K
@@ -148,6 +149,12 @@ class Run:
             else:
                 ft = self.feasible([cond])
                 ff = self.feasible([z3.Not(cond)])
+            if self.explorer.check_prune and not (ft and ff):
+                hyps = list(self.axioms) + list(self.pc) + list(self.ghost.get('_qdefs', {}).values())
+                for side_ok, c_ in ((ft, cond), (ff, z3.Not(cond))):
+                    if not side_ok:
+                        ob = Obligation('pruned_branch', 'prune', hyps, z3.Not(c_), {'tags': list(self.tags) + [f'pruned:{tag or idx}'], 'cname': None})
+                        self.explorer.pruned.append(ob)
             if ft and ff:
                 choice = True
                 self.alternatives.append(self.decisions + [False])
@@ -216,6 +223,10 @@ class Explorer:
     def __init__(self, feas_timeout_ms=2000, max_paths=400):
         self.feas_timeout_ms = feas_timeout_ms
         self.max_paths = max_paths
+        # branches the in-process feasibility check declared infeasible: re-checked by the solver portfolio when
+        # PYVC_CHECK_PRUNE is set (thorough tier), since a wrong 'infeasible' would silently drop a path
+        self.pruned = []
+        self.check_prune = bool(os.environ.get('PYVC_CHECK_PRUNE'))
 
     def explore(self, entry):
         """entry(run) executes the function once; returns list of PathResult."""
